@@ -1,4 +1,5 @@
 SPECIFICATION TSpec
 CONSTANTS Ids = {} Items = {} Weights = {} LgMaxs = {} MaxTotal = 0 CheckDesign = TRUE
 POSTCONDITION Accepted
+CONSTANT WideNums = FALSE
 CHECK_DEADLOCK FALSE
